@@ -7,6 +7,7 @@ import (
 	"github.com/privacybydesign/gabi"
 	"github.com/privacybydesign/gabi/big"
 	"github.com/privacybydesign/gabi/rangeproof"
+	"github.com/privacybydesign/gabi/revocation"
 )
 
 // C03: linked proofs share one secret key.
@@ -113,6 +114,13 @@ func genC03(g *Rng, tier string, emit func(Op)) {
 	}
 	for _, kp := range pool[:1] {
 		for _, o := range pooledSecretsOps(g, kp) {
+			emit(o)
+		}
+	}
+	{
+		kr := fixedKey("k1024a", true)
+		emit(declKey(kr))
+		for _, o := range pooledSecretsOpsNr(g, kr, true) {
 			emit(o)
 		}
 	}
@@ -398,6 +406,17 @@ func forgedNonunitUOps(g *Rng, kp *KeyPair, ctx, nonce *big.Int, issig bool, fke
 		o := listOp([]*KeyPair{kp, kp}, []any{any(proofDTree(pd)), any(forged)}, ctx, nonce, issig, nil, "forged-nonunit-U", "reject")
 		o["fkey"] = fkey
 		ops = append(ops, o)
+		// alone, as the commitment proof of an issuance session (with a blind-attribute response too)
+		ca := gabi.VerifCreateChallenge(ctx, nonce, []*big.Int{u, bi(0)}, issig)
+		for _, extra := range []bool{false, true} {
+			fa := T{"U": I(u), "c": I(ca), "v_prime_response": I(g.bits(300)), "s_response": I(g.bits(300))}
+			if extra {
+				fa["m_user_responses"] = T{"1": I(g.bits(200))}
+			}
+			oa := listOp([]*KeyPair{kp}, []any{any(fa)}, ctx, nonce, issig, nil, "forged-nonunit-U-alone", "reject")
+			oa["fkey"] = fkey
+			ops = append(ops, oa)
+		}
 	}
 	return ops
 }
@@ -407,14 +426,24 @@ func forgedNonunitUOps(g *Rng, kp *KeyPair, ctx, nonce *big.Int, issig bool, fke
 // exponent m_k - t_k*e_k; e_1, e_2 are distinct primes, so t_1, t_2 exist making both exponents
 // the same mu (about 2*l_e bits). Both proofs then prove knowledge of the same R_0 exponent with
 // the same response. Only the size bound on the attribute responses stands in the way.
-func pooledSecretsOps(g *Rng, kp *KeyPair) []Op {
+func pooledSecretsOps(g *Rng, kp *KeyPair) []Op { return pooledSecretsOpsNr(g, kp, false) }
+
+// with nonrev every member also carries a valid non-revocation proof (for its own witness)
+func pooledSecretsOpsNr(g *Rng, kp *KeyPair, nonrev bool) []Op {
 	pk := kp.pk
 	m1, m2 := randSecret(g), randSecret(g)
 	if m1.Cmp(m2) == 0 {
 		return nil
 	}
-	cred1 := issueCred(kp, m1, []*big.Int{g.bits(60), g.bits(60)})
-	cred2 := issueCred(kp, m2, []*big.Int{g.bits(60), g.bits(60)})
+	a1, a2 := []*big.Int{g.bits(60), g.bits(60)}, []*big.Int{g.bits(60), g.bits(60)}
+	var w1, w2 *revocation.Witness
+	if nonrev {
+		ir := newIssuerRev(g, kp)
+		w1, w2 = ir.witnessFor(), ir.witnessFor()
+		a1, a2 = append(a1, w1.E), append(a2, w2.E)
+	}
+	cred1 := issueCred(kp, m1, a1)
+	cred2 := issueCred(kp, m2, a2)
 	e1, e2 := cred1.Signature.E, cred2.Signature.E
 	if e1.Cmp(e2) == 0 {
 		return nil
@@ -450,13 +479,14 @@ func pooledSecretsOps(g *Rng, kp *KeyPair) []Op {
 		if z.Cmp(pk.Z) != 0 {
 			panic("pooled secrets: shifted representation")
 		}
-		return &gabi.Credential{Pk: pk, Signature: &gabi.CLSignature{A: a, E: cred.Signature.E, V: cred.Signature.V}, Attributes: attrs}
+		return &gabi.Credential{Pk: pk, Signature: &gabi.CLSignature{A: a, E: cred.Signature.E, V: cred.Signature.V}, Attributes: attrs, NonRevocationWitness: cred.NonRevocationWitness}
 	}
+	cred1.NonRevocationWitness, cred2.NonRevocationWitness = w1, w2
 	var out []Op
 	for _, issig := range []bool{false, true} {
 		ctx, nonce := g.bits(256), g.bits(128)
-		b1, err1 := shifted(cred1, t1).CreateDisclosureProofBuilder([]int{1}, nil, false)
-		b2, err2 := shifted(cred2, t2).CreateDisclosureProofBuilder([]int{2}, nil, false)
+		b1, err1 := shifted(cred1, t1).CreateDisclosureProofBuilder([]int{1}, nil, nonrev)
+		b2, err2 := shifted(cred2, t2).CreateDisclosureProofBuilder([]int{2}, nil, nonrev)
 		if err1 != nil || err2 != nil {
 			panic("pooled secrets: builders")
 		}
@@ -477,7 +507,11 @@ func pooledSecretsOps(g *Rng, kp *KeyPair) []Op {
 		}
 		trees := proofListTrees(pl)
 		for _, kss := range [][]string{nil, {"ks", "ks"}, {"a", "b"}} {
-			o := listOp([]*KeyPair{kp, kp}, trees, ctx, nonce, issig, kss, "pooled-secrets-shifted-A", "reject")
+			class := "pooled-secrets-shifted-A"
+			if nonrev {
+				class += "-with-nonrevocation-proofs"
+			}
+			o := listOp([]*KeyPair{kp, kp}, trees, ctx, nonce, issig, kss, class, "reject")
 			o["fkey"] = "C03/pooled-secrets"
 			out = append(out, o)
 		}
@@ -525,4 +559,47 @@ func init() {
 		}
 		return v
 	}
+}
+
+// ownChallengeMemberOps: a crafted second member whose own challenge field is a constant of the
+// forger's choosing (so that its contribution is fixed before the list challenge exists), with
+// A = R_0^-1 and e-response = secret-key response = the genuine first member's secret-key
+// response (the two cancel in the reconstruction). It reports values nobody signed. Every member
+// of a list is checked against the list's challenge.
+func ownChallengeMemberOps(g *Rng, kp *KeyPair, ctx, nonce *big.Int, issig bool, fkey string) []Op {
+	pk := kp.pk
+	var ops []Op
+	for _, c2 := range []*big.Int{bi(0), g.bits(200)} {
+		cred := issueCred(kp, randSecret(g), []*big.Int{g.bits(60), g.bits(60)})
+		b, err := cred.CreateDisclosureProofBuilder([]int{1}, nil, false)
+		if err != nil {
+			panic(err)
+		}
+		contribs, err := b.Commit(map[string]*big.Int{"secretkey": g.bits(int(pk.Params.LmCommit) - 2)})
+		if err != nil {
+			panic(err)
+		}
+		a2 := new(big.Int).ModInverse(pk.R[0], pk.N)
+		disclosed := map[int]*big.Int{1: bi(424242)}
+		v, r2 := g.bits(int(pk.Params.LvCommit)-2), g.bits(int(pk.Params.LmCommit)-2)
+		// Z2 = (Z / (R_1^424242 * A2^(2^(le-1))))^(-c2) * S^v * R_2^r2   (the R_0 parts cancel)
+		num := new(big.Int).Exp(a2, new(big.Int).Lsh(bi(1), pk.Params.Le-1), pk.N)
+		num.Mul(num, new(big.Int).Exp(pk.R[1], disclosed[1], pk.N)).Mod(num, pk.N)
+		known := new(big.Int).Mul(pk.Z, new(big.Int).ModInverse(num, pk.N))
+		known.Mod(known, pk.N)
+		z2 := new(big.Int).Exp(new(big.Int).ModInverse(known, pk.N), c2, pk.N)
+		z2.Mul(z2, new(big.Int).Exp(pk.S, v, pk.N)).Mod(z2, pk.N)
+		z2.Mul(z2, new(big.Int).Exp(pk.R[2], r2, pk.N)).Mod(z2, pk.N)
+		c := gabi.VerifCreateChallenge(ctx, nonce, append(append([]*big.Int{}, contribs...), a2, z2), issig)
+		p1 := b.CreateProof(c).(*gabi.ProofD)
+		s := p1.AResponses[0]
+		forged := T{"A": I(a2), "c": I(c2), "e_response": I(s), "v_response": I(v),
+			"a_responses": T{"0": I(s), "2": I(r2)}, "a_disclosed": T{"1": I(disclosed[1])}}
+		for _, kss := range [][]string{nil, {"ks", "ks"}} {
+			o := listOp([]*KeyPair{kp, kp}, []any{any(proofDTree(p1)), any(forged)}, ctx, nonce, issig, kss, "member-with-own-challenge", "reject")
+			o["fkey"] = fkey
+			ops = append(ops, o)
+		}
+	}
+	return ops
 }
